@@ -139,7 +139,8 @@ type flightPkt struct {
 	pkt      OutPkt
 	ready    time.Time
 	// Data on its way back to `to`
-	isData bool
+	isData      bool
+	prefixMatch bool // the Interest it answers had CanBePrefix (snapshot fetch): the Data name extends the Interest name
 	data   ndn.Data
 	raw    enc.Wire
 	cb     ndn.ExpressCallbackFunc
@@ -307,10 +308,89 @@ func (s *Sim) deliver(p *flightPkt, up func(u, w int) bool, f WireFaults) int {
 				return nil
 			}})
 		n++
+	case from.Cfg.PrefixTableSyncPrefix().IsPrefix(name):
+		// Sync Interests of the prefix-table group: the forwarders multicast them along the network: every router
+		// that can be reached over up links gets a copy
+		for w := range s.Nodes {
+			if w == p.from || !s.connected(p.from, w, up) {
+				continue
+			}
+			h := s.Nodes[w].Eng.match(name)
+			if h == nil {
+				continue
+			}
+			interest, _, err := sp.ReadInterest(enc.NewBufferReader(p.pkt.Wire))
+			if err != nil {
+				panic("harness: a router expressed something that is not an Interest: " + err.Error())
+			}
+			face := FaceOf(p.from)
+			h(ndn.InterestHandlerArgs{Interest: interest, IncomingFaceId: &face, RawInterest: enc.Wire{p.pkt.Wire},
+				Reply: func(enc.Wire) error { return nil }})
+			n++
+		}
 	default:
-		// prefix-table sync / data: not carried in this mode (no prefixes are announced)
+		// prefix data of a router (<router>/32=DV/32=PFX/...): forwarded along the installed routes, i.e. it arrives
+		// iff the router is reachable over up links
+		w := -1
+		for i, nd := range s.Nodes {
+			if i != p.from && nd.Cfg.PrefixTableDataPrefix().IsPrefix(name) {
+				w = i
+			}
+		}
+		if w < 0 || !s.connected(p.from, w, up) {
+			return 0
+		}
+		h := s.Nodes[w].Eng.match(name)
+		if h == nil {
+			return 0
+		}
+		interest, _, err := sp.ReadInterest(enc.NewBufferReader(p.pkt.Wire))
+		if err != nil {
+			panic("harness: a router expressed something that is not an Interest: " + err.Error())
+		}
+		face := FaceOf(p.from)
+		back, asked := p.from, name.Clone()
+		h(ndn.InterestHandlerArgs{Interest: interest, IncomingFaceId: &face, RawInterest: enc.Wire{p.pkt.Wire},
+			Reply: func(wire enc.Wire) error {
+				raw := enc.Wire{wire.Join()}
+				data, _, err := sp.ReadData(enc.NewWireReader(raw))
+				if err != nil {
+					panic("harness: a router replied with something that is not Data: " + err.Error())
+				}
+				q := &flightPkt{from: w, to: back, isData: true, data: data, raw: raw, ready: time.Now()}
+				q.pkt.Name = asked
+				if interest.CanBePrefix() {
+					q.pkt.Name = asked // the engine matches the pending Interest by prefix
+					q.prefixMatch = true
+				}
+				s.replyMu.Lock()
+				s.replies = append(s.replies, q)
+				s.replyMu.Unlock()
+				return nil
+			}})
+		n++
 	}
 	return n
+}
+
+// connected: w can be reached from u over links that are up.
+func (s *Sim) connected(u, w int, up func(a, b int) bool) bool {
+	seen := map[int]bool{u: true}
+	todo := []int{u}
+	for len(todo) > 0 {
+		x := todo[0]
+		todo = todo[1:]
+		if x == w {
+			return true
+		}
+		for y := range s.Nodes {
+			if !seen[y] && up(x, y) {
+				seen[y] = true
+				todo = append(todo, y)
+			}
+		}
+	}
+	return false
 }
 
 // collectReplies moves the Data the handlers produced (in goroutines of their own) into the network.
@@ -347,7 +427,7 @@ func (s *Sim) WireQuiet(atLeast time.Duration, up func(u, w int) bool, rnd func(
 			s.wireSettle()
 			s.collectReplies()
 			for _, p := range s.inflight {
-				if p.isData || IsAdvertFetch(p.pkt.Name) {
+				if p.isData || p.pkt.Cb != nil {
 					busy = true
 				}
 			}
